@@ -1,6 +1,8 @@
 package main
 
 import (
+	"testing/iotest"
+	"io"
 	"bytes"
 	"crypto"
 	"crypto/rsa"
@@ -97,6 +99,8 @@ func opensslVerifyData(dir string, blob, content []byte) (bool, string) {
 
 func runC05(c *Ctx) {
 	rng := c.Rng
+	// the process runs in a zone that is not UTC (the signing time must be UTC whatever the zone)
+	time.Local = time.FixedZone("verif+0230", 2*3600+1800)
 	n := c.N(120, 6000)
 	maxContent := c.Bound(1500, 6000)
 	for i := 0; i < n; i++ {
@@ -247,7 +251,17 @@ func runC05(c *Ctx) {
 		cert := mintCert(key, genIssuer(rng), genSerial(rng))
 		img := randBytes(rng, rng.Intn(500))
 		rec := &recSigner{key: key}
-		out, err := authenticode.SignAuthenticode(rec, cert, bytes.NewReader(img), crypto.SHA256)
+		// the image comes through readers with every legal behaviour
+		var ir io.Reader = bytes.NewReader(img)
+		switch i % 4 {
+		case 1:
+			ir = iotest.DataErrReader(bytes.NewReader(img))
+		case 2:
+			ir = iotest.HalfReader(bytes.NewReader(img))
+		case 3:
+			ir = iotest.OneByteReader(bytes.NewReader(img))
+		}
+		out, err := authenticode.SignAuthenticode(rec, cert, ir, crypto.SHA256)
 		if err != nil {
 			c.Rep.Record("sign-authenticode", "error", true, "", []string{hx(img)}, "violation", []string{err.Error()}, nil)
 			continue
